@@ -247,7 +247,7 @@ def stress_configs(ctx, tag, per_config):
             for C in (1, 2, 3):
                 for closer in (0, 1):
                     for _ in range(per_config):
-                        out.append((cap, P, C, closer, 40, r.below(2 ** 31)))
+                        out.append((cap, P, C, closer, 100 if ctx.tier == "thorough" else 40, r.below(2 ** 31)))
     return out
 
 
@@ -284,7 +284,7 @@ def run_stress(ctx, prefix="c15", per_config=None, closer_only=False):
     if not exe:
         return []
     if per_config is None:
-        per_config = 6 if ctx.tier == "thorough" else 1
+        per_config = 20 if ctx.tier == "thorough" else 1
     cfgs = stress_configs(ctx, prefix + "-stress", per_config)
     if closer_only:
         cfgs = [c for c in cfgs if c[3] == 1]
@@ -344,7 +344,7 @@ def run_tsan(ctx):
                          "theorem and the regenerated lock audit only")
         ctx.coverage["tsan"] = "unavailable"
         return
-    per = 3 if ctx.tier == "thorough" else 1
+    per = 8 if ctx.tier == "thorough" else 1
     cfgs = stress_configs(ctx, "c15-tsan", per)
     results = run_batches(exe, cfgs, timeout=120, env={"TSAN_OPTIONS": "halt_on_error=0 report_signal_unsafe=0"})
     reports = 0
@@ -371,7 +371,41 @@ def run_tsan(ctx):
     ctx.coverage["tsan"] = {"runs": len(results), "runs_with_reports": reports}
 
 
+def replay(ctx, path):
+    """--replay: re-run exactly the recorded case (sequential case or stress command) on implementation and model."""
+    import json
+    j = json.load(open(path))
+    rp = j.get("replay", {})
+    exe = ctx.build_cpp("c15_harness", "c15.cpp")
+    if "case" in rp and exe:
+        c = rp["case"]
+        rc, impl = ctx.run_exe(exe, ["seq"], input_text=c + "\n", timeout=20)
+        _, spec = ctx.run_exe(ctx.model, ["seq", "spec"], input_text=c + "\n") if getattr(ctx, "model", None) else (0, "")
+        ctx.case("replay:" + c)
+        ctx.log(f"replay {c!r}: implementation={impl.strip()!r} (exit {rc}) specification={spec.strip()!r}")
+        if rc != 0 or impl.strip() != spec.strip():
+            ctx.violation(j.get("key", "queue-seq-differs-from-spec"), j.get("what", ""), dict(rp, implementation_now=impl.strip(), exit=rc))
+    elif "command" in rp:
+        args = rp["command"].split()
+        cfg = tuple(int(x) for x in args[-6:])
+        tsan = "tsan" in args[0]
+        hook = hook_present(ctx)
+        exe2 = ctx.build_cpp("c15_tsan", "c15.cpp", extra=["-g", "-fsanitize=thread", "-DC15_NO_REC"]) if tsan else ctx.build_cpp("c15_stress", "c15.cpp", hooks=hook)
+        rc, out, err = run_one(exe2, cfg, timeout=120)
+        ctx.case("replay:" + rp["command"])
+        bad = None if tsan else oracle(parse_events(out), cfg[0], hook)
+        ctx.log(f"replay {rp['command']}: exit {rc}, tsan reports {err.count('WARNING: ThreadSanitizer')}, oracle {bad}")
+        if rc != 0 or "WARNING: ThreadSanitizer" in err or bad:
+            ctx.violation(j.get("key", "queue-stress"), j.get("what", ""), dict(rp, exit_now=rc, stderr=err[:1500]))
+    else:
+        ctx.log("replay file has no re-runnable case; running the whole check")
+        return False
+    return True
+
+
 def run(ctx):
+    if ctx.replay_in and replay(ctx, ctx.replay_in):
+        return
     exe = ctx.build_cpp("c15_harness", "c15.cpp")
     if exe:
         run_seq(ctx, exe)
